@@ -32,6 +32,21 @@ theorem c03_when_order_source (ext : Py.Ext) (e : Py.Env) (skip : Py.V) (effs : 
   rw [when_source_is_model ext e skip effs dm nc false false d hC hcl hskip hop hf hd]
   simp only [whenDo, world, hs, hl, Bool.false_eq_true, if_false, if_true, Bool.and_false]
 
+/-- `last() -> x` (C13), of the translated source: when the left-hand side is a function that overrides frozen (`last()`, `fail()`) and
+    answers True, the right-hand side runs with the csvpath unfrozen, and the freeze is put back afterwards. -/
+theorem c13_when_override_source (ext : Py.Ext) (e : Py.Env) (skip : Py.V) (effs : List Py.Eff) (dm nc d : Bool)
+    (hC : Contract ext) (hcl : Clean e) (hskip : Py.isExc skip = false) (hop : e "self.op" = .str "->")
+    (hf : Facts e dm nc true true) (hd : e "self.default_match()" = .bool d) (hs : Py.truthy (e "self.sentinel") = false)
+    (hl : Py.isb (ext "left_matches" [skip] (Py.upd e "self.sentinel" (.bool true))).1 (.bool true) = true) :
+    okVE (Generated.When.Equality._do_when ext e skip effs) =
+      some (.bool (!(!dm && nc)),
+        Py.upd (ext "right_matches" [skip]
+          (Py.upd (Py.upd (ext "left_matches" [skip] (Py.upd e "self.sentinel" (.bool true))).2
+            "self.matcher.csvpath.is_frozen" (.bool false)) "self.DO_WHEN" (.bool true))).2
+          "self.matcher.csvpath.is_frozen" (.bool true)) := by
+  rw [when_source_is_model ext e skip effs dm nc true true d hC hcl hskip hop hf hd]
+  simp only [whenDo, world, hs, hl, Bool.false_eq_true, if_false, if_true, Bool.and_self]
+
 /-- C04 (unexecuted branch), of the translated source: when the left-hand side does not answer True the right-hand side is not
     called at all — what `_do_when` leaves is what the left-hand side left, plus the mark `DO_WHEN = False`. -/
 theorem c04_unexecuted_branch_source (ext : Py.Ext) (e : Py.Env) (skip : Py.V) (effs : List Py.Eff) (dm nc a b d : Bool)
